@@ -134,6 +134,8 @@ def run(tier, seed):
              # an autumn-sown thermal crop over a leap day, with year-to-year temperature differences large enough for the latest harvest date to
              # end a slow season (the default latest harvest date must be the same date whether derived or stated)
              S("WheatGDD_1dec", "Loam", seed=4, plant_md=(10, 15), year=2002, seasons=3, regime="temperate", wparams={"yr_amp": 4.0, "tamp": 8.0}),
+             # water standing between bunds for weeks (flooded surface): switched-off mulch settings must stay without effect there too
+             S("PaddyRice", "Paddy", seed=seed + 13, regime="monsoon", field={"bunds": True, "z_bund": 0.15, "bund_water": 80}, iwc={"value": ["SAT", "SAT"], "depth_layer": [1, 2]}),
              # runoff inhibited by the management: the (switched-off) bund settings must not decide whether it is
              S("Maize", "Clay", seed=seed + 12, field={"sr_inhb": True}, events=L.storm_events(2001, (4, 20), (120, 60, 200))),
              # mulches on the fallow field only, fallow days simulated: the in-season mulch settings (switched off) must stay without effect there
